@@ -1738,8 +1738,11 @@ pub fn wrap_claim<S: Strat>(fill: bool) {
 /// S{starts inside the race, first use of the crate: store #21, load, load}. If S can claim T's
 /// node while W is still inside it, the help W prepared for T's transaction (value #11, same
 /// generation number as S's second transaction) lands in S's load after S's own store of #21.
-pub fn churn_help<S: Strat>(fill: bool) {
+pub fn churn_help<S: Strat>(fill: bool, two: bool) {
     let c = Cont::<S>::new(0, V::new(1));
+    // `two`: the late thread works on a container of its own; a stale help prepared for the
+    // exited thread's load of `c` then delivers a value of `c` to a load of `b` (C12).
+    let b = if two { Cont::<S>::new(1, V::new(2)) } else { c.clone() };
     let fil = filler::<S>();
     let w = {
         let (c, fil) = (c.clone(), fil.clone());
@@ -1751,7 +1754,7 @@ pub fn churn_help<S: Strat>(fill: bool) {
         })
     };
     let s = {
-        let (c, fil) = (c.clone(), fil.clone());
+        let (c, fil) = (b.clone(), fil.clone());
         rt::spawn(move || {
             rt::quiet(|| rt::barrier(3));
             // no prologue: Node::get happens here, inside the race
@@ -1791,7 +1794,12 @@ pub fn churn_help<S: Strat>(fill: bool) {
     w.join();
     s.join();
     t.join();
-    epilogue_p(vec![c], fil, vec![], false, "C11,C03");
+    if two {
+        epilogue_p(vec![c, b], fil, vec![], false, "C11,C12");
+    } else {
+        drop(b);
+        epilogue_p(vec![c], fil, vec![], false, "C11,C03");
+    }
 }
 
 /// A projection guard outlives the thread that created it and is used on another thread while a
